@@ -39,12 +39,17 @@ ASSUMPTIONS = [
     'a handle when it reports its disconnection (or the termination of its BIG); every link is gone before '
     'Host.reset() is called a second time',
 ]
+# hostwire: deciding counters (about half of what a run produces)
+HOSTWIRE_MIN = {'hostwire_histories': 2400, 'hostwire_packets': 100000, 'hostwire_iso_packets': 35000,
+                'hostwire_packets_le_links': 35000, 'hostwire_second_resets': 900,
+                'hostwire_packets_after_second_reset': 40000, 'hostwire_disconnects_outstanding': 6000,
+                'hostwire_disconnects_freeing_for_others': 2000, 'hostwire_full_waits': 90000,
+                'hostwire_drain_waiters': 6000, 'hostwire_nocp_events': 25000, 'hostwire_nocp_multi_pool': 5000}
 MIN_EVENTS = {
     'quick': {'queue_ops': 300000, 'pipe_writes': 15000, 'rig_acl_packets': 1500, 'drain_waiters': 40000,
-              # hostwire: deciding counters (placeholders, set from measured runs below)
-              'hostwire_histories': 0},
+              **HOSTWIRE_MIN},
     'thorough': {'queue_ops': 5000000, 'pipe_writes': 300000, 'rig_acl_packets': 15000, 'drain_waiters': 500000,
-                 'hostwire_histories': 0},
+                 **{k: 16 * v for k, v in HOSTWIRE_MIN.items()}},
 }
 CASE_TIMEOUT = 600
 
@@ -61,9 +66,9 @@ def plan(tier, seed):
     nrig = 128 if tier == 'quick' else 960
     for i in range(nrig):
         cases.append({'kind': 'rig', 'seed': seed * 100003 + i})
-    nhw = 64 if tier == 'quick' else 640
+    nhw = 96 if tier == 'quick' else 960
     for i in range(nhw):
-        cases.append({'kind': 'hostwire', 'seed': seed * 100003 + i, 'histories': 20 if tier == 'quick' else 40})
+        cases.append({'kind': 'hostwire', 'seed': seed * 100003 + i, 'histories': 25 if tier == 'quick' else 40})
     return cases
 
 
@@ -667,7 +672,7 @@ LEVEL_TEXT = ('Lock-step reference model beside the real DataPacketQueue over ~1
               'unknown handles; order/exactly-once oracle on FlowControlAsyncPipe under random '
               'pause/resume/sink progress; credit ledger and delivery oracle over the HCI tap log of '
               '2-3 device rigs with 1-4 controller buffers and a link dropped mid-stream; per-pool credit / '
-              'FIFO / no-stall / drain ledger over ~10^3 (quick) / 2.5x10^4 (thorough) histories of a real Host '
+              'FIFO / no-stall / drain ledger over 2400 (quick) / 38400 (thorough) histories of a real Host '
               'reset against a Controller with three different buffer pools (dedicated or shared LE, ISO, '
               'v1/v2 commands), hand-played link life-cycle and a second reset with another geometry. Held = no '
               'refuting execution among those observed; this is sampling, not proof.')
